@@ -313,6 +313,11 @@ def standard_obligations(ctx, theorems, extra_targets=()):
     ctx.obligation(f"build:{module}", True)
     hits = forbidden_scan(module)
     ctx.obligation("forbidden-token-scan", not hits, "\n".join(hits))
+    if ctx.tier == "thorough":
+        # independent re-check of the compiled .olean files of the property's module by leanchecker
+        p = subprocess.run(["lake", "env", "leanchecker", module], cwd=LEAN, capture_output=True, text=True, timeout=1800)
+        lc = (p.stdout + p.stderr)
+        ctx.obligation(f"leanchecker:{module}", p.returncode == 0 and "uncaught exception" not in lc, lc[-600:])
     res, out = audit(module, theorems)
     for t in theorems:
         ax = res.get(t)
